@@ -247,14 +247,15 @@ Do(a) == CASE a.name = "SetSession" -> SetSession(a.s, a.var, a.val)
            [] a.name = "SetGlobal" -> SetGlobal(a.s, a.var, a.val)
            [] a.name = "SetUser" -> SetUser(a.s, a.var, a.val)
            [] OTHER -> NewSession(a.s)
+\* (every random draw is bound by \E over a singleton so that it is evaluated exactly once)
+RPool(k) ==          \* k = 1: open a session, 2: user variable, else system variable
+  LET new == {a \in NActs : EnabledAct(a)} IN
+  IF k = 1 /\ new # {} THEN new
+  ELSE IF k <= 2 THEN {a \in UActs : EnabledAct(a)}
+  ELSE {a \in ActsOK : EnabledAct(a)}
 NextRandom ==
   /\ step < MaxSteps
-  /\ LET k == RandomElement(1..10)          \* 1: open a session, 2: user variable, else system variable
-         new == {a \in NActs : EnabledAct(a)}
-         pool == IF k = 1 /\ new # {} THEN new
-                 ELSE IF k <= 2 THEN {a \in UActs : EnabledAct(a)}
-                 ELSE {a \in ActsOK : EnabledAct(a)}
-     IN Do(RandomElement(pool))
+  /\ \E k \in {RandomElement(1..10)} : \E a \in {RandomElement(RPool(k))} : Do(a)
 
 Spec == Init /\ [][Next]_vars
 
